@@ -44,6 +44,15 @@ add("C06", "intern_mc", "model_checking",
     "loom explores every interleaving (up to the preemption bound) of 2-3 threads adding to / reading from the real AtomicArena, including additions racing across a bucket boundary into slice_for_slot_slow, a reader thread receiving Refs through a mutex, and a with_zero arena; every execution checks distinct dense references, read-back from any thread, monotone len, final len, and exactly-once drop.",
     loom_note, "loom (controlled scheduler, DPOR, preemption-bounded) on the real code", "2/C06")
 
+fs_note = ("Trusted: the BTreeMap reference tree; the slot universe (2 entities, 2 selectables, 2 file names, 2 root files, 2 contents) as representative of artifact sets; "
+           "fault model = fail-before-effect or torn (half-written) file at an operation boundary; kill = stop at an operation boundary and lose the in-memory state. Directories containing no file are ignored.")
+add("C18", "fs_mc", "model_checking",
+    "Every artifact set over a 6-slot universe (729 sets), every initial directory content (missing, empty, any other set with and without stray files/dirs), every ordered pair and every triple (reduced universe) of sets is run through the real planner (FileSystemState::recreate_all/diff) and the real write_artifacts_to_disk on a real directory; after every compile the directory tree must equal the artifact set byte for byte and later compiles must not rewrite unchanged files.",
+    fs_note, "exhaustive enumeration of artifact-set sessions on the real planner/applier vs a plain map model", "2/C18")
+add("C19", "fs_mc", "fault_enumeration",
+    "For every plan between two artifact sets of a reduced universe and for the first-compile plan: every operation index x {fails before effect, torn write} x {same watch session, fresh process} x a family of continuations (retry, revert, other sets); after the next fault-free compile the directory must equal its artifact set.",
+    fs_note, "exhaustive fault-point enumeration through a cfg fault-injection hook in apply_file_system_operations", "2/C19")
+
 props = [json.loads(l)["id"] for l in open(os.path.join(ROOT, "properties.jsonl"))]
 claimed = {c["property_id"] for c in checks}
 hook_commits = subprocess.run(["git", "-C", "/repo", "log", "--format=%h %s", "cd9f374..HEAD"], capture_output=True, text=True).stdout.splitlines()
@@ -60,6 +69,7 @@ m = {
     },
     "engines": [
         {"name": "pico_mc", "path": "/verif/mc/pico_mc", "serves_properties": ["C01", "C02", "C03", "C04"], "kind_free_text": "explicit-state history explorer (seqx) driving the real pico crate against a reference evaluator + ideal incremental engine; pairwise key-space check for #[memo]"},
+        {"name": "fs_mc", "path": "/verif/mc/fs_mc", "serves_properties": ["C18", "C19"], "kind_free_text": "explicit-state exploration of artifact-directory sessions and exhaustive fault-point enumeration on the real planner/applier over a real directory in /dev/shm"},
         {"name": "intern_mc", "path": "/verif/mc/intern_mc", "serves_properties": ["C05", "C06"], "kind_free_text": "loom models over the real intern crate (cfg shim) + bounded-exhaustive sequential sweep"},
     ],
     "checks": checks,
